@@ -44,6 +44,7 @@ func genArithCase(rt *rapid.T, prop, op string, d DT, form, via, mode string, la
 			c.Mode = "safe"
 		}
 	}
+	c.SafeOpt = c.Mode == "safe" && rapid.IntRange(0, 5).Draw(rt, "safeopt") == 0
 	return c
 }
 
@@ -94,9 +95,13 @@ func TestC06(t *testing.T) {
 		})
 		for _, d := range []DT{dtBool, dtStr, dtUintptr, dtUnsafe} {
 			d := d
-			cell(t, "C06", "EW", op+"/nonnumeric/"+d.Name, nCases(2, 20), func(rt *rapid.T) Case {
+			nc, lays := nCases(2, 20), []string{"contig", "sliced"}
+			if opSupports("arith", op, d) { // strings have an order: the elementwise minimum and maximum are computed
+				nc, lays = nCases(30, 900), c06LayoutKinds
+			}
+			cell(t, "C06", "EW", op+"/nonnumeric/"+d.Name, nc, func(rt *rapid.T) Case {
 				form := rapid.SampledFrom([]string{"TT", "TS", "ST"}).Draw(rt, "form")
-				return genArithCase(rt, "C06", op, d, form, "pkg", "safe", []string{"contig", "sliced"})
+				return genArithCase(rt, "C06", op, d, form, "pkg", "safe", lays)
 			})
 		}
 	}
